@@ -632,6 +632,20 @@ func (s *Stream) ProcessSync(data map[string]any) (map[string]any, error) {
 		return nil, fmt.Errorf("Synchronous processing is not supported for MATCH_RECOGNIZE queries.")
 	}
 
+	// The call runs user sinks on the caller's goroutine, so it takes part in the
+	// lifecycle like the pipeline goroutines do: registered under startMu (same
+	// protocol as Start, so Add never races with Stop's Wait), refused once the
+	// stream is stopped. Without this a sink could still be invoked after Stop
+	// returned, by a call made after Stop or one that overlapped it.
+	s.startMu.Lock()
+	if atomic.LoadInt32(&s.stopped) != 0 {
+		s.startMu.Unlock()
+		return nil, fmt.Errorf("stream is stopped")
+	}
+	s.lifecycle.Add(1)
+	s.startMu.Unlock()
+	defer s.lifecycle.Done()
+
 	// Directly process data and return result. processDirectDataSync applies the
 	// filter after JOIN enrichment so WHERE can reference joined columns.
 	return s.processDirectDataSync(data)
